@@ -38,6 +38,7 @@ type out struct {
 	Complete    bool                `json:"complete"`
 	Remaining   int                 `json:"remaining"`
 	Violations  []violOut           `json:"violations"`
+	Witnesses   []violOut           `json:"witnesses"`
 	Reached     map[string]int      `json:"reached"`
 	Funcs       []string            `json:"funcs"`
 	Queries     int64               `json:"queries"`
@@ -184,6 +185,14 @@ func run(args []string) {
 				vo.Names = append(vo.Names, n.Name)
 			}
 			o.Violations = append(o.Violations, vo)
+		}
+		for _, v := range res.Witnesses {
+			vo := violOut{Kind: v.Kind, Site: v.Site, Msg: v.Msg, Values: v.Values}
+			for _, n := range v.Nondets {
+				vo.Kinds = append(vo.Kinds, n.Kind)
+				vo.Names = append(vo.Names, n.Name)
+			}
+			o.Witnesses = append(o.Witnesses, vo)
 		}
 		outs = append(outs, o)
 		fmt.Fprintf(os.Stderr, "[symx] %s: paths=%d ends=%v violations=%d complete=%v queries=%d (unknown %d) wall=%.1fs\n",
